@@ -59,6 +59,7 @@ struct Plan {
     // expected outcome when used as a replay file
     std::string expect_class;
     uint64_t expect_hash = 0;
+    std::string story;      // human-readable trace, written as # comment lines
 
     bool write(const std::string &path) const;
     bool read(const std::string &path);
